@@ -58,7 +58,7 @@ func catalog(p ScenParams) *WSpec {
 	if kind == "" {
 		kind = "func"
 	}
-	if p.Graph == "tasks" || p.Graph == "slots" {
+	if p.Graph == "tasks" || p.Graph == "slots" || p.Graph == "tasks2wf" || p.Graph == "nested" {
 		return directSpec(p)
 	}
 	w := &WSpec{Name: "w", MaxTasks: p.Max, Buf: p.Buf}
@@ -224,6 +224,16 @@ func catalog(p ScenParams) *WSpec {
 		spl := ProcSpec{Name: "sp", Kind: "psplit"}
 		w.Procs = []ProcSpec{src, ps, spl, pp}
 		w.Edges = []Edge{fe("src", "out", "p", "in"), {From: "ps", FromPort: "out", To: "sp", ToPort: "in", Param: true}, {From: "sp", FromPort: "out", To: "p", ToPort: "a", Param: true}}
+	case "g8k": // g8h with a consumer that has NO out-ports (it is the workflow's driver, not the sink): the only dead end is a PARAMETER out-port
+		pp := ProcSpec{Name: "p", Kind: kind, Ins: []string{"in"}, Params: []string{"a"}}
+		vals := []string{}
+		for i := 0; i < p.Items; i++ {
+			vals = append(vals, fmt.Sprintf("v%d", i))
+		}
+		ps := ProcSpec{Name: "ps", Kind: "psrc", Items: vals}
+		spl := ProcSpec{Name: "sp", Kind: "psplit"}
+		w.Procs = []ProcSpec{src, ps, spl, pp}
+		w.Edges = []Edge{fe("src", "out", "p", "in"), {From: "ps", FromPort: "out", To: "sp", ToPort: "in", Param: true}, {From: "sp", FromPort: "out", To: "p", ToPort: "a", Param: true}}
 	case "g8i": // a process WITHOUT file in-ports whose parameter comes from a process: ps -> gen.a ; gen.out -> fin.in -> extra.in
 		gen := ProcSpec{Name: "gen", Kind: kind, Params: []string{"a"}, Outs: []OutSpec{{Name: "out", Pattern: "{p:a}.gen"}}}
 		vals := []string{}
@@ -314,6 +324,10 @@ func catalog(p ScenParams) *WSpec {
 		tg2 := ProcSpec{Name: "tg2", Kind: "tagger", TagKey: "k2", Ins: []string{"in"}}
 		w.Procs = []ProcSpec{src, simpleProc("p", kind), tg1, simpleProc("c", kind), tg2, simpleProc("e", kind), simpleProc("d", kind)}
 		w.Edges = []Edge{fe("src", "out", "p", "in"), fe("p", "out", "tg", "in"), fe("tg", "out", "c", "in"), fe("tg", "out", "d", "in"), fe("c", "out", "tg2", "in"), fe("tg2", "out", "e", "in")}
+	case "g14f": // a tag travels two task steps beyond the tagging component: src -> p -> tg -> d -> e (e reads it from d's record)
+		tg := ProcSpec{Name: "tg", Kind: "tagger", TagKey: "k", Ins: []string{"in"}}
+		w.Procs = []ProcSpec{src, simpleProc("p", kind), tg, simpleProc("d", kind), simpleProc("e", kind)}
+		w.Edges = []Edge{fe("src", "out", "p", "in"), fe("p", "out", "tg", "in"), fe("tg", "out", "d", "in"), fe("d", "out", "e", "in")}
 	case "g14a": // tagging alone in a chain
 		tg := ProcSpec{Name: "tg", Kind: "tagger", TagKey: "k", Ins: []string{"in"}}
 		w.Procs = []ProcSpec{src, simpleProc("p", kind), tg, simpleProc("d", kind)}
@@ -391,6 +405,12 @@ func catalog(p ScenParams) *WSpec {
 	case "setout-only": // p's out-ports are declared with SetOut alone; its command builds the file name from its input
 		if ps := w.proc("p"); ps != nil {
 			ps.OutsNotInCmd = true
+		}
+	case "emptytag": // every tagging component also attaches a tag whose value is the empty string
+		for i := range w.Procs {
+			if w.Procs[i].Kind == "tagger" {
+				w.Procs[i].EmptyTag = "e"
+			}
 		}
 	case "prepend": // Process.Prepend: a launcher in front of every command of p
 		if ps := w.proc("p"); ps != nil {
